@@ -20,8 +20,19 @@ T  seeded random runs: tens of thousands of chunks, packets of up to a few hundr
    function _Packetize is evaluated on every small buffer and on random frames / truncated frames / garbage, as the
    stack calls it (bytes), and judged by TLC (Trace_StreamFrame); when it works on bytes it is also run inside
    bsllservice._StreamToPacket in the random runs.
-C  connection bookkeeping of TCPClientDirector / TCPServerDirector with the socket layer stubbed in the driver
-   (StreamConn.tla), see the second half of this file.
+C  connection bookkeeping (StreamConn.tla): a real TCPClientDirector / TCPServerDirector under a real StreamToPacket with a
+   StreamToPacketSAP as its service element; the socket layer is stubbed IN THE DRIVER (actor / director subclasses whose
+   create_socket installs a fake socket; tcp._time points at the virtual clock) and plays the environment: how connect_ex
+   answers (in progress / connected at once), when a socket is writable, when octets or an end of stream arrive.  Steps:
+   connect, disconnect, send (a client director connects on demand, a server director refuses), accept, writable,
+   receive, peerclose, tick (ONE due task: connect timeout, idle timeout, reconnect), wait (a second passes).
+   D: every history of 3/4 calls and events with every placement of the expiries, two peers, against
+   TimersBelongToActors, DisconnectIsFinal, KeptAlive, SentInOrder, BuffersFollowTable, NotesMatchTable, ClosedForAReason,
+   ReceivedGoesUp, ReceivedConserved; the deviations DisconnectKeepsPendingReconnect / ImmediateConnectKeepsTimeout must
+   violate.  R: edge cover of TLC's graphs executed on the real directors, projection (table, queued / written octets,
+   reconnect table, the scheduler's entries in installation order, StreamToPacket's buffers, what the service element
+   was told, what went up) recorded after every step and validated by Trace_StreamConn.  T: random histories (3 peers,
+   six director configurations).
 
 Conformance uses the deviation flags OBSERVED on the tree under test (probe_flags), so that it stays meaningful on a tree
 that has the reported defects as well as on a repaired one; the monitors never look at the flags.
@@ -613,7 +624,7 @@ def corrupted_copies(traces):
         c = copy.deepcopy(t)
         c["evs"] = c["evs"][:i + 1]
         c["evs"][i]["em"].append(c["evs"][i]["em"][-1])
-        out.append((c, "NoEarlyEmission"))
+        out.append((c, "OctetsConserved"))
     t, i = first(lambda e: len(e["em"]) >= 1)
     if t is not None:                                            # a packet lost
         c = copy.deepcopy(t)
@@ -1447,7 +1458,9 @@ def main(tier, seed):
                 "implementation: one evaluation = one chunk handed to a real StreamToPacket (or one call of a framing function); "
                 "distinct = (framing, direction, one/both addresses, consumer raises at k, raised, chunk size class, what the "
                 "buffer held before [nothing / part of a header / more], packets handed on [capped at 4], remainder empty or "
-                "not) combinations, resp. (buffer class, result, length) for the framing function")
+                "not) combinations, resp. (buffer class, result, length) for the framing function, resp. (role, step, how the "
+                "connection attempt went, notifications, packets handed up, refusal, scheduler entries [capped], table shape) for "
+                "the directors")
     chk.assumptions = [
         "the packet functions given to StreamToPacket for the framings tl / lp / bsll are the driver's renderings of "
         "StreamFrame.tla (checked against it on every run); the library's own _Packetize is judged separately and, when it "
@@ -1459,7 +1472,12 @@ def main(tier, seed):
         "buffers are projected from StreamToPacket.upstreamBuffer / .downstreamBuffer (a missing key = empty)",
         "the conformance side of the trace validation uses the deviation flags observed on the tree by probe calls "
         "(recorded as code_flags_observed); the monitors do not depend on the flags",
-        "TLC exhaustive for the stated small scenarios only; longer streams and bigger packets by trace validation of random runs"]
+        "TLC exhaustive for the stated small scenarios only; longer streams and bigger packets by trace validation of random runs",
+        "connections: no real sockets -- the socket layer is a stub in the driver (connect_ex answers EINPROGRESS or 0, SO_ERROR is "
+        "0, send takes everything, recv returns what the harness queued or end-of-stream); refused / failing connections, partial "
+        "writes, flush() and the pickle actors are not modelled; time is whole seconds on the virtual clock; the scheduler's "
+        "entries are identified through the closure of task.FunctionTask (connect_timeout / idle_timeout of an actor, a method "
+        "of the director with the peer as argument)"]
     phases = chk.extra.setdefault("phase_wall_s", {})
 
     def phase(name, t0=[time.time()]):
